@@ -67,8 +67,8 @@ def run(ctx):
         if c and c.endswith('::add_constraint'):
             addc = c
     ctx.require(addc is not None, 'R05.2: add_constraint call not found in run_scheduling_solver')
-    wrc = solver.locals_named('worker_res_constraint')
-    ctx.require(len(wrc) == 1, 'R05.2: local worker_res_constraint not found')
+    wrc = [l for l in range(len(solver.locals)) if solver.locals[l][0].startswith('alloc::vec::Vec<alloc::vec::Vec<(') and 'f64' in solver.locals[l][0]]
+    ctx.require(len(wrc) == 1, f'R05.2: the per-resource constraint table (Vec<Vec<(Variable, f64)>>) not identified: {wrc}')
     for fn in ('create_sn_var', 'create_mn_var'):
         for c in solver.call_blocks(SOLVER + fn):
             v = solver.term[c]['d'][0]
@@ -97,7 +97,7 @@ def run(ctx):
             if l is not None and 'mn_workers' in local_field_sources(solver, l):
                 ins_blocks.append(bi)
     ctx.floor('R05.3', len(ins_blocks), 1, 'insert into SchedulingSolution.mn_workers')
-    wg = solver.locals_named('worker_groups')
+    wg = [l for l in range(len(solver.locals)) if 'worker_groups' in [f for bi_, k_, p_ in solver.defs().get(l, ()) if k_ == 'a' for pl_ in __import__('hqrules.core', fromlist=['rv_places']).rv_places(p_['rv']) for f, a_, v_ in place_fields(pl_)]]
     for bi in ins_blocks:
         t = solver.term[bi]
         val = op_local(t['args'][2]) if len(t['args']) > 2 else None
